@@ -1,5 +1,6 @@
 import SurfModel.Proto
 import SurfModel.Tokenizer
+import SurfModel.TokLang
 /-! Driver for C03: like `Proto.serve`, but the handler carries the automata installed by `c03 dfa …`
 requests (the harness sends each dumped DFA once). -/
 open SurfModel
@@ -9,7 +10,7 @@ partial def loopC03 (ts : Tokenizer.Tables) (h out : IO.FS.Stream) : IO Unit := 
   if line.isEmpty then return ()
   match Proto.tokens line with
   | "c03" :: rest =>
-    let (ts', answer) := Tokenizer.handle ts rest
+    let (ts', answer) := TokLang.handle ts rest
     out.putStrLn answer
     loopC03 ts' h out
   | _ =>
